@@ -5,6 +5,7 @@ import (
 	"encoding/json"
 	"errors"
 	"fmt"
+	"go.uber.org/zap/zaptest/observer"
 	"io"
 	"log/slog"
 	"strings"
@@ -215,6 +216,23 @@ func (w *c8world) history(kind, a int, lg *zap.Logger) {
 			w.failing.Error("with a reflected field to a failing device", zap.Reflect("r", c8refl{a, "f", nil}))
 		}
 		w.failWant++
+	case 21:
+		// a lazily derived sugared logger whose first use comes after other
+		// sugared calls with context (its fields are evaluated then, not before):
+		// what it prints is what it was given
+		oc, logs := observer.New(zapcore.DebugLevel)
+		base := zap.New(oc)
+		lz := base.Sugar().WithLazy("request", fmt.Sprintf("r-%d", a), "attempt", a)
+		lg.Sugar().Infow("between derivation and first use", "k", "v", "n", 7)
+		base.Sugar().With("other", a, "more", "m").Info("a sibling derived in between")
+		lz.Infow("first use of the lazy logger", "ok", true)
+		for _, e := range logs.FilterMessage("first use of the lazy logger").All() {
+			m := e.ContextMap()
+			if len(m) != 3 || m["request"] != fmt.Sprintf("r-%d", a) || m["attempt"] != int64(a) || m["ok"] != true {
+				w.c.Fail("C08: the fields of a lazily derived logger depend on the calls made before its first use", "SugaredLogger.WithLazy(request=r-%d, attempt=%d), then other sugared calls, then Infow(ok=true): recorded %v", a, a, m)
+			}
+		}
+		w.c.R.Probe("lazily derived sugared logger first used after other sugared calls")
 	case 20:
 		// a relative of the probe logger logs a reflected value whose marshaler
 		// is a yield point
@@ -292,7 +310,7 @@ type c8hook struct{ w *c8world }
 
 func (h c8hook) OnWrite(*zapcore.CheckedEntry, []zapcore.Field) { h.w.hookGot++ }
 
-const c8kinds = 21
+const c8kinds = 22
 
 // c8panicArr: a user marshaler with a bug. zap does not contain panics of
 // object and array marshalers; the application (an HTTP server, say) recovers
